@@ -13,6 +13,7 @@
 //	p.Texts() / p.Text()                 // text of every w:t under w:body in document order, with its nesting path
 //	p.Features()                         // sorted feature flags (F* constants) present in this package
 //	p.Has(foreign.FExtRel)               // one feature
+//	p.LibraryImageSlots()                // image<N> numbers held by parts other than the main part (see FMediaOtherHighest)
 //	foreign.Minimal()                    // the smallest package (one paragraph), a base for hand-written cases
 //
 // A Package is a description, not bytes: the body is a tree of Block/Inline/Run values, extra parts
@@ -99,33 +100,38 @@ const (
 	FMediaOddName  = "media:non-library-name" // name not of the form image<N>.<ext> with N without leading zeros
 	FMediaNoExt    = "media:no-extension"
 	FMediaUpper    = "media:upper-case"
-	FPicture       = "body:picture" // a drawing in the body that shows a media part
-	FHyperlink     = "nest:hyperlink"
-	FSmartTag      = "nest:smartTag"
-	FIns           = "nest:ins"
-	FInlineSdt     = "nest:sdt"
-	FFldSimple     = "nest:fldSimple"
-	FDeepNest      = "nest:deep" // container inside a container
-	FDel           = "body:del"
-	FMultiT        = "run:multi-t"
-	FTabBr         = "run:tab-br"
-	FParaSectPr    = "sect:paragraph-level"
-	FBodySectPr    = "sect:body-level"
-	FTable         = "body:table"
-	FNestedTable   = "body:nested-table"
-	FBlockSdt      = "body:block-sdt"
-	FHeaderFooter  = "part:header-footer"
-	FHFRels        = "part:header-footer-rels"
-	FCustomXML     = "part:customXml"
-	FNumbering     = "part:numbering"
-	FNotes         = "part:footnotes"
-	FSettings      = "part:settings"
-	FTheme         = "part:theme"
-	FDocProps      = "part:docProps"
-	FBinary        = "part:binary"
-	FUnknownDef    = "ct:unknown-default" // Default entries for extensions the library does not know
-	FStored        = "zip:stored"
-	FCTLast        = "zip:content-types-last"
+	// FMediaOtherHighest: a media part named image<K>.<ext> that the main part has no relationship to (owned by a
+	// header/footer/notes/comments part, or by nobody) with K above every image<N> the main part relates to
+	FMediaOtherHighest = "media:owned-by-other-part-highest"
+	FMediaUnrelated    = "media:related-from-nowhere"
+	FMediaNotesOwned   = "media:owned-by-notes-or-comments"
+	FPicture           = "body:picture" // a drawing in the body that shows a media part
+	FHyperlink         = "nest:hyperlink"
+	FSmartTag          = "nest:smartTag"
+	FIns               = "nest:ins"
+	FInlineSdt         = "nest:sdt"
+	FFldSimple         = "nest:fldSimple"
+	FDeepNest          = "nest:deep" // container inside a container
+	FDel               = "body:del"
+	FMultiT            = "run:multi-t"
+	FTabBr             = "run:tab-br"
+	FParaSectPr        = "sect:paragraph-level"
+	FBodySectPr        = "sect:body-level"
+	FTable             = "body:table"
+	FNestedTable       = "body:nested-table"
+	FBlockSdt          = "body:block-sdt"
+	FHeaderFooter      = "part:header-footer"
+	FHFRels            = "part:header-footer-rels"
+	FCustomXML         = "part:customXml"
+	FNumbering         = "part:numbering"
+	FNotes             = "part:footnotes"
+	FSettings          = "part:settings"
+	FTheme             = "part:theme"
+	FDocProps          = "part:docProps"
+	FBinary            = "part:binary"
+	FUnknownDef        = "ct:unknown-default" // Default entries for extensions the library does not know
+	FStored            = "zip:stored"
+	FCTLast            = "zip:content-types-last"
 )
 
 // Rel is one relationship as written.
@@ -1031,6 +1037,19 @@ func (p Package) Features() []string {
 			set[FBinary] = true
 		}
 	}
+	if _, taken := p.LibraryImageSlots(); len(taken) > 0 {
+		set[FMediaOtherHighest] = true
+	}
+	for _, m := range p.MediaParts() {
+		if m.Source == "" {
+			set[FMediaUnrelated] = true
+		}
+		for _, pt := range p.Parts {
+			if pt.Name == m.Source && (pt.Kind == "footnotes" || pt.Kind == "endnotes" || pt.Kind == "comments") {
+				set[FMediaNotesOwned] = true
+			}
+		}
+	}
 	if p.Sect != nil {
 		set[FBodySectPr] = true
 	}
@@ -1146,4 +1165,51 @@ func Minimal() Package {
 		Defaults: []Default{{"rels", CTRels}, {"xml", CTXML}},
 		IDStyle:  "dense",
 	}
+}
+
+// imageNumber parses the N of a media base name image<N>.<ext> (leading zeros allowed).
+func imageNumber(base string) (int, string, bool) {
+	if !strings.HasPrefix(base, "image") {
+		return 0, "", false
+	}
+	rest := base[len("image"):]
+	i, n := 0, 0
+	for i < len(rest) && rest[i] >= '0' && rest[i] <= '9' {
+		n = n*10 + int(rest[i]-'0')
+		i++
+	}
+	if i == 0 || i >= len(rest) || rest[i] != '.' {
+		return 0, "", false
+	}
+	return n, rest[i+1:], true
+}
+
+// LibraryImageSlots describes the image<N> numbering of the package as a counter sees it that looks only at
+// the main part's relationships: next = 1 + the highest N of an image<N>.<ext> the main part relates to
+// (0 when there is none); taken = number -> extension of the word/media/image<K>.<ext> parts with K >= next
+// that the main part has no relationship to (owned by other parts or by nobody).
+func (p Package) LibraryImageSlots() (next int, taken map[int]string) {
+	maxDoc := -1
+	docOwned := map[string]bool{}
+	for _, r := range p.DocRels {
+		if r.Type != RelImage || r.Mode == "External" {
+			continue
+		}
+		name := resolve(MainPart, r.Target)
+		docOwned[name] = true
+		if n, _, ok := imageNumber(name[strings.LastIndex(name, "/")+1:]); ok && n > maxDoc {
+			maxDoc = n
+		}
+	}
+	next = maxDoc + 1
+	taken = map[int]string{}
+	for _, pt := range p.Parts {
+		if pt.Kind != "media" || docOwned[pt.Name] || !strings.HasPrefix(pt.Name, "word/media/") {
+			continue
+		}
+		if n, ext, ok := imageNumber(pt.Name[len("word/media/"):]); ok && n >= next {
+			taken[n] = ext
+		}
+	}
+	return next, taken
 }
